@@ -19,6 +19,7 @@ struct Cfg {
 thread_local! {
     static CFG: RefCell<Cfg> = RefCell::new(Cfg::default());
     static LOG: RefCell<Vec<Value>> = RefCell::new(Vec::new());
+    static PRE: RefCell<Value> = RefCell::new(Value::Null);
 }
 
 #[derive(Clone, Debug)]
@@ -64,6 +65,12 @@ impl PurlShape for Shape {
 
     fn finish(&mut self, parts: &mut PurlParts) -> Result<(), ShapeErr> {
         LOG.with(|l| l.borrow_mut().push(json!(["finish", hx(&parts.name)])));
+        // what the hook is given, for the concrete re-evaluation of the property on a counterexample
+        let quals: Vec<Value> = parts.qualifiers.iter().map(|(k, v)| json!([hx(k.as_str()), hx(v)])).collect();
+        PRE.with(|p| {
+            *p.borrow_mut() = json!({"ns": hx(&parts.namespace), "name": hx(&parts.name), "ver": hx(&parts.version),
+                                     "sub": hx(&parts.subpath), "quals": quals})
+        });
         let hook = CFG.with(|c| c.borrow().hook.clone());
         for e in hook {
             match e[0].as_str() {
@@ -129,6 +136,7 @@ pub fn run(req: &Value) -> Value {
         }
     });
     LOG.with(|l| l.borrow_mut().clear());
+    PRE.with(|p| *p.borrow_mut() = Value::Null);
     let r: Result<GenericPurl<Shape>, ShapeErr> = if req["mode"] == "parse" {
         GenericPurl::<Shape>::from_str(&unhex(&req["s"]))
     } else {
@@ -149,8 +157,9 @@ pub fn run(req: &Value) -> Value {
         b.build()
     };
     let log = LOG.with(|l| l.borrow().clone());
+    let pre = PRE.with(|p| p.borrow().clone());
     match r {
-        Ok(p) => json!({"ok": observe(&p), "log": log}),
-        Err(e) => json!({"err": err_name(&e), "log": log}),
+        Ok(p) => json!({"ok": observe(&p), "log": log, "pre": pre}),
+        Err(e) => json!({"err": err_name(&e), "log": log, "pre": pre}),
     }
 }
